@@ -12,21 +12,51 @@ from ..cexpr import (callee, cnorm, find_assign_in, int_value, is_null, strip,
 from ..cfacts import CREL, get_cfacts
 from ..core import AnalysisError, rule
 from ..pyfacts import get_pyrepo
+from ..pyfacts import norm as norm_py
 
 INF = math.inf
 
 
+def module_int_constants(ctx):
+    """Integer constants the C module exports: name -> value, from the
+    PyModule_AddIntConstant calls of PyInit_ctraits."""
+    facts = get_cfacts(ctx)
+    out = {}
+    for x in facts.func("PyInit_ctraits").walk():
+        if x.kind == "CallExpr" and callee(x) == "PyModule_AddIntConstant":
+            nm = strip(x.ch[2])
+            v = int_value(x.ch[3])
+            if nm.kind == "StringLiteral" and v is not None:
+                out[str(nm.value).strip('"')] = v
+    return out
+
+
 def py_enum(ctx, rel, cls):
-    """name -> int for an IntEnum class body (ast only)."""
+    """name -> int for an IntEnum class body (ast only).  Members defined as
+    ``traits.ctraits._NAME`` are resolved through the integer constants the C
+    module exports."""
     repo = get_pyrepo(ctx)
     ci = repo.cls(rel, cls)
     out = {}
+    consts = None
     for s in ci.node.body:
-        if isinstance(s, ast.Assign) and len(s.targets) == 1 \
-                and isinstance(s.targets[0], ast.Name) \
-                and isinstance(s.value, ast.Constant) \
-                and isinstance(s.value.value, int):
-            out[s.targets[0].id] = s.value.value
+        if not (isinstance(s, ast.Assign) and len(s.targets) == 1
+                and isinstance(s.targets[0], ast.Name)):
+            continue
+        v = s.value
+        if isinstance(v, ast.UnaryOp) and isinstance(v.op, ast.USub) \
+                and isinstance(v.operand, ast.Constant):
+            out[s.targets[0].id] = -v.operand.value
+        elif isinstance(v, ast.Constant) and isinstance(v.value, int):
+            out[s.targets[0].id] = v.value
+        elif isinstance(v, ast.Attribute) and norm_py(v).startswith(
+                "traits.ctraits."):
+            if consts is None:
+                consts = module_int_constants(ctx)
+            if v.attr not in consts:
+                raise AnalysisError(f"{cls}.{s.targets[0].id}: the C module "
+                                    f"exports no constant {v.attr}")
+            out[s.targets[0].id] = consts[v.attr]
     if not out:
         raise AnalysisError(f"enum {rel}:{cls} has no integer members")
     return out
